@@ -267,6 +267,12 @@ TEXTS = ["", " ", ",", ";", "0;1", "01;10", "0 1;1", "0\t1", "0\n1", "01\n", "\t
          "1.0, 0.0 ,1.", "1 0.0", "0 1.5", "1 -0", "1 +1 01", "0" * 40 + "1", "1 " * 30]
 
 
+# integer literals outside the C long range: numpy raises OverflowError inside str2array; the constructor turns it into
+# ValueError (fix e0d1539)
+OVERFLOW_TEXTS = ["9223372036854775808", "-9223372036854775809", "99999999999999999999", "0 1 99999999999999999999",
+                  "1,-99999999999999999999", "9223372036854775808;1", " 18446744073709551616 "]
+
+
 def _slice_vals(n):
     return [None] + list(range(-n - 2, n + 3))
 
@@ -359,6 +365,8 @@ def gen_cases(rng, tier):
                       "expect": "err"})
     for t in TEXTS:
         cases.append({"kind": "mk", "data": {"form": "text", "text": t}, "expect": "any"})
+    for t in OVERFLOW_TEXTS:
+        cases.append({"kind": "mk", "data": {"form": "text", "text": t}, "expect": "err"})
     for _ in range(150 if quick else 3000):
         alpha = rng.choice(["01 ,", "01 ,", "01 ,;", "01 ,\t\n", "012 ,", "0123456789 ,+-", "01 ,.", "01.+- ,;", "01. ", "01j+ ,"])
         t = "".join(rng.choice(alpha) for _ in range(rng.randrange(1, 14)))
@@ -452,13 +460,12 @@ def gen_cases(rng, tier):
     return cases
 
 
-# suspected genuine defect, reported, not generated by default (see the final report of this property):
-# an integer literal outside the C long range inside a string makes numpy raise OverflowError, which the
-# constructor lets through although the statement allows only ValueError/TypeError.
+# still open, reported, not generated by default: `__add__` / `__radd__` call str2array without the constructor's
+# `except OverflowError`, so the same literal as an OPERAND of + still raises OverflowError (model: `add_overflow_escapes`).
 SUSPECT = [
-    {"kind": "mk", "data": {"form": "text", "text": "9223372036854775808"}, "expect": "err"},
-    {"kind": "mk", "data": {"form": "text", "text": "0 1 99999999999999999999"}, "expect": "err"},
     {"kind": "prog", "init": "01", "steps": [{"op": "add", "operand": {"form": "text", "text": "-9223372036854775809"}, "obits": None,
+                                              "expect": "err", "keep": False}]},
+    {"kind": "prog", "init": "01", "steps": [{"op": "radd", "operand": {"form": "text", "text": "99999999999999999999"}, "obits": None,
                                               "expect": "err", "keep": False}]},
 ]
 
